@@ -32,7 +32,7 @@ def runner(prop, fam, tier, seed, replay):
     rc = tablecheck.table_check(prop, fam, tier, seed, replay)
     if replay or rc == 2:
         return rc
-    evp = os.path.join(vcheck.VERIF, "evidence", prop + ".json")
+    evp = vcheck.evidence_path(prop)
     ev = json.load(open(evp))
     work = vcheck.workdir(prop + "lin")
     try:
